@@ -40,6 +40,112 @@ pub struct Case {
 	pub chunks: Vec<usize>,
 	/// (chunk index before which it is issued, command)
 	pub cmds: Vec<(usize, Cmd)>,
+	/// instead of all this: the playback rate is changed (instantly) between chunks, also through
+	/// zero; the reported position must follow the accumulated rate (position-only stream)
+	#[serde(default)]
+	pub flips: Option<Vec<(usize, f64)>>,
+}
+
+/// Rate changes, also of sign, on a long sound played from its middle: the position reported by
+/// the handle stays within a few frames of "rate x source-rate x dt" accumulated. Inside the chunk
+/// in which an instant rate change arrives the rate is interpolated from the old to the new value:
+/// both the signed integral of that ramp and its magnitude taken in the new direction are accepted.
+fn run_flips(case: &Case, flips: &[(usize, f64)]) -> CaseResult {
+	let mut res = CaseResult::default();
+	let mut trace = Hasher64::new();
+	let sr = case.sound_rate;
+	let len = 60_000usize;
+	let start = len / 2;
+	let data = StaticSoundData {
+		sample_rate: sr,
+		frames: (0..len).map(|i| kira::Frame::from_mono(((i % 64) as f32 + 1.0) / 128.0)).collect::<Vec<_>>().into(),
+		settings: Default::default(),
+		slice: None,
+	}
+	.start_position(kira::sound::PlaybackPosition::Samples(start))
+	.playback_rate(case.rate);
+	let Ok(Ok((mut sound, mut handle))) = monitor::catch(move || data.into_sound()) else {
+		return res;
+	};
+	let info = MockInfoBuilder::new().build();
+	let dt = 1.0 / sr as f64;
+	let (mut lo, mut hi) = (start as f64, start as f64);
+	let mut rate_prev = case.rate;
+	let mut rate_cur = case.rate;
+	let mut buf = vec![kira::Frame::ZERO; case.chunks.iter().copied().max().unwrap_or(1)];
+	let mut it = flips.iter().peekable();
+	let mut checked = 0u64;
+	for (ci, n) in case.chunks.iter().enumerate() {
+		let mut new_rate = None;
+		while let Some((at, r)) = it.peek() {
+			if *at <= ci {
+				new_rate = Some(*r);
+				it.next();
+			} else {
+				break;
+			}
+		}
+		if let Some(r) = new_rate {
+			handle.set_playback_rate(
+				r,
+				kira::Tween {
+					duration: std::time::Duration::ZERO,
+					..Default::default()
+				},
+			);
+			rate_cur = r;
+			res.hit("rate_changes");
+			if (r < 0.0) != (rate_prev < 0.0) {
+				res.hit("rate_sign_changes");
+			}
+		}
+		// (the position is published at the start of a callback: it covers the chunks before this one)
+		if let Err(p) = monitor::catch(|| sound.on_start_processing()) {
+			res.fail(Violation::new("panic", format!("panic: {}", monitor::panic_signature(&p)), format!("chunk {ci}: {p}")));
+			break;
+		}
+		let reported = handle.position() * sr as f64;
+		trace.f64(reported);
+		// the frame being heard trails the transport by up to three frames in the direction of travel,
+		// and after a change of direction the four-frame window is first played out the old way
+		if !(reported >= lo - 9.0 && reported <= hi + 9.0) {
+			res.fail(Violation::new(
+				"position",
+				"position-does-not-follow-the-rate",
+				format!(
+					"at the start of callback {ci}: the handle reports frame {reported:.2}; accumulating rate x source-rate x dt from frame {start} over the {ci} chunks so far (rate history: start {}, changes {:?}) gives {lo:.2} .. {hi:.2}",
+					case.rate, flips
+				),
+			));
+			break;
+		}
+		checked += 1;
+		if let Err(p) = monitor::catch(|| sound.process(&mut buf[..*n], dt, &info)) {
+			res.fail(Violation::new("panic", format!("panic: {}", monitor::panic_signature(&p)), format!("chunk {ci}: {p}")));
+			break;
+		}
+		for f in &buf[..*n] {
+			trace.f32(f.left);
+		}
+		// movement in this chunk
+		let (mut signed, mut magnitude) = (0.0f64, 0.0f64);
+		for i in 0..*n {
+			let ri = rate_prev + (rate_cur - rate_prev) * ((i + 1) as f64 / *n as f64);
+			signed += ri;
+			magnitude += ri.abs();
+		}
+		let toward = if rate_cur < 0.0 { -magnitude } else { magnitude };
+		lo += signed.min(toward);
+		hi += signed.max(toward);
+		rate_prev = rate_cur;
+	}
+	res.count("flip_positions_checked", checked);
+	res.hit("type.rate_flips");
+	res.nontrivial = true;
+	res.callbacks = case.chunks.len() as u64;
+	res.behaviour_sig = flips.len() as u64 * 31 + 7;
+	res.trace_hash = trace.finish();
+	res
 }
 
 #[derive(Clone, Copy, Debug, Serialize, Deserialize, PartialEq)]
@@ -322,10 +428,14 @@ fn gen_case(seed: u64, tier: Tier, small: Option<u64>) -> Case {
 		rate,
 		chunks,
 		cmds,
+		flips: None,
 	}
 }
 
 pub fn run_case(case: &Case) -> CaseResult {
+	if let Some(flips) = &case.flips {
+		return run_flips(case, flips);
+	}
 	let mut res = CaseResult::default();
 	let mut trace = Hasher64::new();
 	let mut beh = Hasher64::new();
@@ -776,7 +886,7 @@ impl Check for C04 {
 		CheckInfo {
 			id: "C04",
 			level: "exploration",
-			rule: "each case = sound length, slice, start position, loop region (incl. end == length, empty, start inside/after the loop), reverse, playback rate (+/-, 1, 0.5, 2, irrational), sound/device rate pair, chunk-size sequence, and optional seek_to / seek_by / set_loop_region commands at chunk boundaries (a loop-region change and a seek may share one gap when both orders of application give the same transport); 40% of the cases with commands contain a paused stretch (instant pause, instant resume some gaps later) with up to two seeks inside it: silence and no consumption while paused, every seek counts; the thorough tier adds the complete small-scope space (length <= 6 x slice x start x loop x reverse) as a workload source; non-trivial = non-silent output; distinct = hash of (state after each chunk, loop wraps, end reached, direction, rate class, length class)",
+			rule: "each case = sound length, slice, start position, loop region (incl. end == length, empty, start inside/after the loop), reverse, playback rate (+/-, 1, 0.5, 2, irrational), sound/device rate pair, chunk-size sequence, and optional seek_to / seek_by / set_loop_region commands at chunk boundaries (a loop-region change and a seek may share one gap when both orders of application give the same transport); 40% of the cases with commands contain a paused stretch (instant pause, instant resume some gaps later) with up to two seeks inside it: silence and no consumption while paused, every seek counts; 1/32 of the cases are a position-only stream: instant playback-rate changes, also of sign, on a long sound - the reported position follows the accumulated rate; the thorough tier adds the complete small-scope space (length <= 6 x slice x start x loop x reverse) as a workload source; non-trivial = non-silent output; distinct = hash of (state after each chunk, loop wraps, end reached, direction, rate class, length class)",
 			assumptions: vec![
 				"the sound is driven directly through the public Sound trait with MockInfoBuilder, the way Track::process drives it".into(),
 				"the reference accumulates rate x source-rate x dt in f64 exactly as the property states; interpolation is compared with tolerance 2e-5 x window magnitude, bit-exactly at rate 1 with equal rates".into(),
@@ -803,6 +913,38 @@ impl Check for C04 {
 			Tier::Quick if index % 4 == 0 => Some(derive_seed(seed, 41, index) % SMALL_SPACE),
 			_ => None,
 		};
+		if small.is_none() && index % 32 == 13 {
+			// rate-flip stream (position only)
+			let mut rng = Rng::new(derive_seed(seed, 44, index));
+			let sr = *rng.pick(&[8000u32, 44_100]);
+			let n_chunks = rng.urange(6, 30);
+			let mode = rng.below(3);
+			let chunks: Vec<usize> = (0..n_chunks)
+				.map(|_| match mode {
+					0 => *rng.pick(&[8usize, 64, 128]),
+					1 => rng.urange(1, 200),
+					_ => 64,
+				})
+				.collect();
+			let rates = [1.0, -1.0, 0.5, -0.5, 2.0, -2.0, 1.37, -0.8];
+			let mut flips: Vec<(usize, f64)> = (0..rng.urange(1, 5)).map(|_| (rng.urange(1, n_chunks), *rng.pick(&rates))).collect();
+			flips.sort_by_key(|f| f.0);
+			flips.dedup_by_key(|f| f.0);
+			return serde_json::to_value(Case {
+				len: 0,
+				slice: None,
+				sound_rate: sr,
+				device_rate: sr,
+				start: 0,
+				looped: None,
+				reverse: false,
+				rate: *rng.pick(&rates),
+				chunks,
+				cmds: vec![],
+				flips: Some(flips),
+			})
+			.unwrap();
+		}
 		serde_json::to_value(gen_case(derive_seed(seed, 4, index), tier, small)).unwrap()
 	}
 	fn run(&self, case: &Value) -> CaseResult {
